@@ -1,10 +1,13 @@
 import NitroVerif.Driver.Engine
 import NitroVerif.Driver.Codec
+import NitroVerif.Driver.Table
 namespace NitroVerif.Driver
 
 def engineByName (name : String) : Option Engine :=
   match name with
   | "codec" => some codecEngine
+  | "table" => some tableEngine
+  | "nodelist" => some nodeListEngine
   | _ => none
 
 end NitroVerif.Driver
